@@ -176,20 +176,32 @@ fn run_seq<S: Sch>(seq: &[BAct], si: &SchemeInfo) -> SeqOut {
             }),
         }
     }
-    // second build on the same builder with the other key of the scheme
-    if matches!(r0, Ok(Ok(_))) {
-        let mut st2 = st.clone();
-        if let Some(m) = &p0.ok {
-            st2.content = m.pairs.clone();
+    // further builds on the same builder: again with k0 (a failed build must not change what the next
+    // one does; a successful one leaves id and the signer's key in the builder), then with k1
+    let mut cur = st.clone();
+    let mut prev_ok = matches!(r0, Ok(Ok(_)));
+    let mut prev_pred = p0;
+    let mut signers = vec![0usize];
+    let mut tag = String::from("build(k0)");
+    for signer in [0usize, 1] {
+        if prev_ok {
+            if let Some(m) = &prev_pred.ok {
+                cur.content = m.pairs.clone();
+            } else {
+                // the implementation built where the model refuses: the builder's content is unknown
+                break;
+            }
         }
-        let k1 = S::mk_key(1);
-        S::arm(&k1, -1, 64);
-        let r1 = real::guard(|| b.build(&k1));
+        let key = S::mk_key(signer);
+        S::arm(&key, -1, 64);
+        let r = real::guard(|| b.build(&key));
         executions += 1;
-        let p1 = builder_predict(&st2, 1, 64, si);
-        if p0.ok.is_some() {
-            judge_build::<S>(&format!("{label};build(k0)"), seq, &[0, 1], &r1, &p1, &mut viols, &mut classes);
-        }
+        let p = builder_predict(&cur, signer, 64, si);
+        signers.push(signer);
+        judge_build::<S>(&format!("{label};{tag}"), seq, &signers, &r, &p, &mut viols, &mut classes);
+        tag = format!("{tag};build(k{signer})");
+        prev_ok = matches!(r, Ok(Ok(_)));
+        prev_pred = p;
     }
     SeqOut { viols, classes, state: st, executions }
 }
